@@ -65,7 +65,7 @@ def inner_included(d):
 
 class Check(PropertyCheck):
     id = 'C02'
-    lean_targets = ['RegionsVerif.Props.C02', 'RegionsVerif.Props.C02Mask', 'RegionsVerif.Props.C02Fast', 'RegionsVerif.Props.C08',
+    lean_targets = ['RegionsVerif.Props.C02', 'RegionsVerif.Props.C02Mask', 'RegionsVerif.Props.C02Fast', 'RegionsVerif.Props.C02Convex', 'RegionsVerif.Props.C08',
                     'RegionsVerif.Bridge.MaskGlue']
     namespaces = ['RegionsVerif.Props.C02', 'RegionsVerif.Bridge.MaskGlue']
 
